@@ -454,7 +454,9 @@ fn paths_named(root: &El, names: &[&str]) -> Vec<Vec<usize>> {
 // ------------------------------------------------------------------ legal building blocks
 
 const NUMS: [&str; 14] = ["0", "1", "-1", "10", "250", "-37.5", "0.25", "1e3", "123456789", "-0", "0.0", "3.14159", "1000000", "512"];
-const NAMES: [&str; 8] = ["top", "bottom", "a b", "x<y", "\u{e9}t\u{e9}", "q&a", "n\"q", "\u{1F600}"];
+const NAMES: [&str; 12] = ["top", "bottom", "a b", "x<y", "\u{e9}t\u{e9}", "q&a", "n\"q", "\u{1F600}",
+    // blanks that are content: ASCII at the edges of an attribute value, Unicode White_Space that is not XML white space
+    " sp ", "\u{a0}nb\u{a0}", "\u{3000}", "a\u{2003}\u{2028}b "];
 const COLORS: [&str; 6] = ["1,0,0,1", "0,0.5,0,0.5", "0.123,0.456,0.789,0.159", "0,0,0,0", "1,1,1,1", "0.5,0.5,0.5,1.0"];
 const IMAGES: [&str; 4] = ["img.png", "a b.png", "\u{e9}.jpg", "x"];
 
@@ -748,7 +750,7 @@ pub fn legal_doc(rng: &mut Rng, v2: bool) -> El {
     }
     if v2 && rng.chance(1, 3) {
         let mut n = El::new("note", &[]);
-        n.kids.push(Node::Raw(pk(rng, &["a note", "x &amp; y", "line1\nline2", "\u{e9}", "a\r\nb", "a\rb &lt;c&gt;"]).to_string()));
+        n.kids.push(Node::Raw(pk(rng, &["a note", "x &amp; y", "line1\nline2", "\u{e9}", "a\r\nb", "a\rb &lt;c&gt;", "\u{a0}x\u{3000}", "\u{3000}", " \u{2003}y\u{2029} "]).to_string()));
         let at = rng.below(root.kids.len() + 1);
         root.kids.insert(at, Node::El(n));
     }
